@@ -31,6 +31,7 @@ type c19Exchange struct {
 	Status       int    `json:"status"`
 	CacheControl bool   `json:"cache_control"`
 	Answer       bool   `json:"answer"`
+	Forge        bool   `json:"forge,omitempty"`
 }
 
 type c19Viol struct {
@@ -75,8 +76,11 @@ func (e *c19Exchange) class() string {
 	if e.Chain != "" {
 		return fmt.Sprintf("url-reuse|%s|%s|%d|cache-control:%v", e.Chain, e.Method, e.Status, e.CacheControl)
 	}
-	return fmt.Sprintf("exchange|%s|req:%s|resp:%s|%d|answered:%v|cache-control:%v", e.Method, c19SizeCls(e.ReqSize), c19SizeCls(e.RespSize), e.Status, e.Answer, e.CacheControl)
+	return fmt.Sprintf("exchange|%s|req:%s|resp:%s|%d|answered:%v|cache-control:%v|forgery-attempted:%v", e.Method, c19SizeCls(e.ReqSize), c19SizeCls(e.RespSize), e.Status, e.Answer, e.CacheControl, e.Forge)
 }
+
+// c19Intruder is registered like any backend; its (authenticated) agent tries to fetch and to answer other backends' requests.
+var c19Intruder = c19Backend{ID: "bkX", Agent: "agentX@sa.example.com", EndUser: "nobody@example.com", Prefixes: []string{"/intruder/"}}
 
 var c19Backends = []c19Backend{
 	{ID: "bk0", Agent: "agent0@sa.example.com", EndUser: "u0@example.com", Prefixes: []string{"/s0/"}},
@@ -121,6 +125,10 @@ func c19Generate(r *core.Run) []c19Exchange {
 		exs[len(exs)-1].Status = 200
 		exs[len(exs)-1].CacheControl = len(exs)%2 == 0
 	}
+	// for every third answered request another backend's agent first tries to fetch it and to post a forged response
+	for i := range exs {
+		exs[i].Forge = exs[i].Answer && (i%3 == 0 || (exs[i].ReqSize > 0 && exs[i].ReqSize < 5000 && i%2 == 0))
+	}
 	if !r.Quick() {
 		for len(exs) < 2400 {
 			rq, rs := 200+rng.Intn(60000), 200+rng.Intn(60000)
@@ -135,6 +143,7 @@ func c19Generate(r *core.Run) []c19Exchange {
 				rq = 0
 			}
 			add(m, rq, rs, true)
+			exs[len(exs)-1].Forge = rng.Intn(3) == 0
 		}
 	}
 	return exs
@@ -261,7 +270,7 @@ type c19PlanRec struct {
 // C19 — the App Engine proxy relays each request and its response intact.
 func C19(r *core.Run) {
 	r.Level = "fault_enumeration"
-	r.SetRule("(a) concurrent client handlers + agent pollers (list/fetch/post) in one world with unique tokens: every request size x response size over {1 KiB, 999 999, 1 000 000, 1 000 001, 1 999 999, 2 000 000, 2 000 001, 3.5 MB} (sizes of the serialised messages, hit exactly), POST/PUT/GET, statuses, cacheable and not, requests never answered (504), one exchange with > 11 overflow parts (11 000 001 / 12 345 678 bytes; thorough up to 25 MB); (a2) URL-reuse histories: sequences POST>GET, PUT>GET, DELETE>GET, GET>GET, other-user GETs, uncacheable variants (thorough: 150 random ones) on one URL each, run in order; (b) store-level write/read-back of requests and responses at the size boundaries on the persistent store, the caching store and the caching store with memcache failing; (c) fault plans: one exchange per plan in a world of its own, failing the n-th call of each (service, method, entity kind) seen at each endpoint, and every pair of them for the response post; class = (phase, method, request size class, response size class, status, answered, cache-control) for exchanges, (stack, kind, size class) for blobs, (endpoint, failed operations, payload class) for fault plans")
+	r.SetRule("(a) concurrent client handlers + agent pollers (list/fetch/post) in one world with unique tokens: every request size x response size over {1 KiB, 999 999, 1 000 000, 1 000 001, 1 999 999, 2 000 000, 2 000 001, 3.5 MB} (sizes of the serialised messages, hit exactly), POST/PUT/GET, statuses, cacheable and not, requests never answered (504), for a third of the requests the authenticated agent of another registered backend first tries to fetch them and to post a forged response under their IDs (must be rejected, request stays pending, client gets the rightful answer), one exchange with > 11 overflow parts (11 000 001 / 12 345 678 bytes; thorough up to 25 MB); (a2) URL-reuse histories: sequences POST>GET, PUT>GET, DELETE>GET, GET>GET, other-user GETs, uncacheable variants (thorough: 150 random ones) on one URL each, run in order; (b) store-level write/read-back of requests and responses at the size boundaries on the persistent store, the caching store and the caching store with memcache failing; (c) fault plans: one exchange per plan in a world of its own, failing the n-th call of each (service, method, entity kind) seen at each endpoint, and every pair of them for the response post; class = (phase, method, request size class, response size class, status, answered, cache-control) for exchanges, (stack, kind, size class) for blobs, (endpoint, failed operations, payload class) for fault plans")
 	r.Assume("T = 45 s progress bound per handler call (designed waits are 30 s; fault-free calls take < 3 s); a call exceeding it is re-run alone in a fresh process before it is reported; under an injected fault the client may receive a proxy-generated 404/500/504 instead of the response; a client must receive the response posted under its own request ID, except that a GET may be answered with a byte-identical replay of a cacheable response (200, no Cache-Control) delivered earlier to the same user for a GET of the same URL (the documented GET cache); datastore transactions are not isolated by the fake")
 	bin := r.MustBuild(e3Build(r))
 	exs := c19Generate(r)
@@ -288,7 +297,7 @@ func C19(r *core.Run) {
 			"nth": []int{1, 2}, "timeouts": true, "workers": 16}
 	}
 	const T = 45000
-	spec := map[string]interface{}{"mode": "c19", "t_ms": T, "conc": r.Pick(8, 16), "backends": c19Backends, "exchanges": exs, "chains": chains, "blobs": blobs, "faults": faults}
+	spec := map[string]interface{}{"mode": "c19", "t_ms": T, "conc": r.Pick(8, 16), "backends": c19Backends, "intruder": c19Intruder, "exchanges": exs, "chains": chains, "blobs": blobs, "faults": faults}
 	// Megabyte payloads under the race detector are dominated by shadow-memory page faults; fewer GC cycles and,
 	// in the quick tier, fewer threads contending in the kernel keep the wall time steady on a busy machine.
 	env := []string{"GOGC=400"}
@@ -310,7 +319,7 @@ func C19(r *core.Run) {
 	}
 	var plans []*c19PlanRec
 	var hangRerun []c19Exchange
-	nEx, nBlob, exact, maxMs, maxClientMs, replays := 0, 0, 0, int64(0), int64(0), 0
+	nEx, nBlob, exact, maxMs, maxClientMs, replays, forgeries := 0, 0, 0, int64(0), int64(0), 0, 0
 	got504 := 0
 	for _, ln := range res.Lines {
 		var probe struct {
@@ -337,8 +346,12 @@ func C19(r *core.Run) {
 				SizeExact bool      `json:"req_size_exact"`
 				Inconcl   string    `json:"inconclusive"`
 				ReplayOf  string    `json:"replay_of"`
-				Serial    int       `json:"req_serial_len"`
-				Fetched   int       `json:"fetched_len"`
+				Forge     *struct {
+					Fetch, Post int
+					Still       bool `json:"still_pending"`
+				} `json:"forge"`
+				Serial  int `json:"req_serial_len"`
+				Fetched int `json:"fetched_len"`
 			}
 			json.Unmarshal(ln, &rec)
 			ex := byTok[rec.Ex]
@@ -353,6 +366,9 @@ func C19(r *core.Run) {
 			}
 			if rec.ReplayOf != "" {
 				replays++
+			}
+			if rec.Forge != nil {
+				forgeries++
 			}
 			if ex.Chain != "" && strings.HasSuffix(ex.Chain, "#1") {
 				r.Sample(map[string]interface{}{"url_reuse_step": ex, "observed": json.RawMessage(ln)})
@@ -523,6 +539,7 @@ func C19(r *core.Run) {
 		r.Broken(fmt.Sprintf("C19: only %d fault plans were executed", nPlans))
 	}
 	r.Set("exchanges", nEx)
+	r.Set("forgery_attempts_by_another_backends_agent", forgeries)
 	r.Set("url_reuse_histories", len(chains))
 	r.Set("url_reuse_requests", nChainSteps)
 	r.Set("url_reuse_requests_served_a_legitimate_replay", replays)
